@@ -201,6 +201,31 @@ class Walk:
                 raise Unknown("terminator %s" % k)
 
 
+class FreeWalk(Walk):
+    """abstract walk in which every comparison whose operands are not concrete consumes one free oracle bit"""
+
+    def __init__(self, facts, b, oracle, args, bits):
+        Walk.__init__(self, facts, b, oracle, args)
+        self.bits = list(bits)
+        self.used = 0
+
+    def free(self):
+        if self.used >= len(self.bits):
+            raise Unknown("more than %d free comparisons" % len(self.bits))
+        v = self.bits[self.used]
+        self.used += 1
+        return v
+
+    def rvalue(self, rv):
+        if rv["k"] == "bin" and rv["op"] in ("Gt", "Lt", "Ge", "Le", "Eq", "Ne"):
+            a, c = self.operand(rv["o"][0]), self.operand(rv["o"][1])
+            if isinstance(a, (bool, int)) and isinstance(c, (bool, int)):
+                return Walk.rvalue(self, rv)
+            return self.free()
+        return Walk.rvalue(self, rv)
+
+
+
 def deref(v):
     while isinstance(v, tuple) and v[0] == "ref":
         v = v[1]
@@ -465,8 +490,8 @@ def visitmap(facts):
             if nm in ("toggle", "set"):
                 w.trace.append(nm)
                 return ("opaque", "unit")
-            if nm == "index":
-                return ("opaque", "idx")
+            if nm in ("index", "len"):
+                return ("opaque", nm)
             raise Unknown("call %s" % f["path"])
         return oracle
     n = 0
@@ -477,16 +502,33 @@ def visitmap(facts):
             continue
         n += 1
         got = {}
+        amb = None
         try:
+            import itertools
             for present in (False, True):
-                w = Walk(facts, b, mk_oracle(present), {1: ("ref", ("opaque", "SET")), 2: ("opaque", "x")})
-                v = w.run()
-                got[present] = (v, tuple(w.trace))
+                # every comparison the function makes besides the set's own membership answer (e.g. index vs len()) is left free:
+                # the result must not depend on it
+                outs = set()
+                for bits in itertools.product((False, True), repeat=2):
+                    w = FreeWalk(facts, b, mk_oracle(present), {1: ("ref", ("opaque", "SET")), 2: ("opaque", "x")}, bits)
+                    v = w.run()
+                    outs.add((v if isinstance(v, bool) else str(v), tuple(w.trace)))
+                    if w.used == 0:
+                        break
+                if len({o[0] for o in outs}) > 1:
+                    amb = (present, sorted(str(o[0]) for o in outs))
+                got[present] = sorted(outs, key=str)[0]
         except Unknown as e:
             r.silent += 1
             r.ok(b.npath, b.name, "unrecognised construct (%s): silent" % e)
             continue
         site = "%s for %s" % (b.name, re.sub(r"<.*", "", b.impl_self))
+        if amb is not None:
+            r.bad(Violation("TABLE-VISITMAP", b.npath, site, b.file, b.line,
+                            "VisitMap::%s does not answer from the set's membership alone: for an element that is %s the result depends on another "
+                            "comparison (outcomes %s) - e.g. an index beyond the map's length is reported as visited, so a FixedBitSet used as a "
+                            "node filter includes nodes it does not cover" % (b.name, "present" if amb[0] else "absent", amb[1])))
+            continue
         if b.name == "visit":
             ok = got[False][0] is True and got[True][0] is False and all(any(x in ("put", "insert") for x in g[1]) for g in got.values())
             exp = "true iff newly inserted, inserting in both cases"
